@@ -5,7 +5,9 @@
 // Scenario parameters (sc.P): members []string, init string, wait bool,
 // mode: event | nic | poll | rr | lastused | polldefault | lastused-unattached, rr []string (ids of the
 // RoundRobinPoller in mode rr).
-// Steps: select{id} | write{n} | memberRead{src,n} | read | close | counters | asUnreliable | negotiationParams.
+// Steps: select{id} | write{n} | writeBegin{n} | writeEnd | memberRead{src,n} | read | close | counters | asUnreliable |
+// negotiationParams.  writeBegin starts a Write that stays in flight inside the member it was routed to (the member applies
+// back-pressure) until writeEnd lets it return; selections issued in between queue up behind the write.
 package multi
 
 import (
@@ -50,6 +52,31 @@ type member struct {
 	tx, rx uint64
 	feed   chan feedReq
 	closed chan struct{}
+	gate   *wgate
+}
+
+// wgate makes the next Write of any member block inside the member until it is released.
+type wgate struct {
+	mu      sync.Mutex
+	armed   bool
+	entered chan string
+	release chan struct{}
+}
+
+func (g *wgate) arm() {
+	g.mu.Lock()
+	defer g.mu.Unlock()
+	g.armed, g.entered, g.release = true, make(chan string, 1), make(chan struct{})
+}
+
+func (g *wgate) take() (chan string, chan struct{}, bool) {
+	g.mu.Lock()
+	defer g.mu.Unlock()
+	if !g.armed {
+		return nil, nil, false
+	}
+	g.armed = false
+	return g.entered, g.release, true
 }
 
 func newMember(id string, idx, total int) *member {
@@ -70,6 +97,17 @@ func (m *member) Read() ([]byte, error) {
 }
 
 func (m *member) Write(bs []byte) error {
+	if m.gate != nil {
+		if entered, release, ok := m.gate.take(); ok {
+			m.mu.Lock()
+			m.writes = append(m.writes, append([]byte(nil), bs...))
+			m.tx += uint64(len(bs))
+			m.mu.Unlock()
+			entered <- m.id
+			<-release
+			return nil
+		}
+	}
 	m.mu.Lock()
 	defer m.mu.Unlock()
 	if m.closes > 0 {
@@ -239,8 +277,10 @@ func run(sc *h.Scenario) *h.Rec {
 	isMember := map[string]bool{}
 	members := map[string]*member{}
 	tm := tmulti.TransportMap{}
+	gate := &wgate{}
 	for i, id := range ids {
 		m := newMember(id, i, len(ids))
+		m.gate = gate
 		members[id] = m
 		isMember[id] = true
 		if i%2 == 1 {
@@ -299,8 +339,14 @@ func run(sc *h.Scenario) *h.Rec {
 
 	closed := false
 	var pendingRead chan readRes
+	var heldRet chan string      // result of the Write that is in flight
+	var heldRelease chan struct{}
+	heldSel := ""                // last member id selected while the write was in flight
 	defer func() {
 		cleanup := "ok"
+		if heldRelease != nil {
+			close(heldRelease)
+		}
 		if !closed {
 			if guard(func() { mt.Close() }) {
 				cleanup = "panic"
@@ -385,6 +431,14 @@ func run(sc *h.Scenario) *h.Rec {
 				continue
 			}
 			pr, seen, sawPanic := "none", false, false
+			if heldRet != nil {
+				// a write is in flight: NegotiationParams would queue behind transportIDLoop's Lock - no observation here
+				if isMember[id] {
+					heldSel = id
+				}
+				rec.Log("MtOp", "a", "select", "id", id, "known", isMember[id], "wait", false, "probe", pr, "seen", false, "sawPanic", false)
+				continue
+			}
 			if wait {
 				limit := unknownWindow
 				if isMember[id] {
@@ -435,6 +489,71 @@ func run(sc *h.Scenario) *h.Rec {
 				m.mu.Unlock()
 			}
 			rec.Log("MtOp", "a", "write", "n", k, "ret", ret, "to", to)
+		case "writeBegin":
+			k := st.N
+			if k < 1 || k > 20 || heldRet != nil {
+				rec.Log("Inconclusive", "why", "bad writeBegin")
+				continue
+			}
+			gate.arm()
+			entered, release := gate.entered, gate.release
+			c := make(chan string, 1)
+			go func() {
+				var werr error
+				if guard(func() { werr = mt.Write(wPayload(k)) }) {
+					c <- "panic"
+				} else if werr != nil {
+					c <- "error"
+				} else {
+					c <- "ok"
+				}
+			}()
+			select {
+			case id := <-entered:
+				heldRet, heldRelease, heldSel = c, release, ""
+				rec.Log("MtOp", "a", "writeBegin", "n", k, "ret", "ok", "to", []string{id})
+			case r := <-c: // the call returned without entering a member (panic / error)
+				gate.take()
+				rec.Log("MtOp", "a", "writeBegin", "n", k, "ret", r, "to", []string{})
+			case <-time.After(opTimeout):
+				gate.take()
+				rec.Log("MtOp", "a", "writeBegin", "n", k, "ret", "timeout", "to", []string{})
+			}
+		case "writeEnd":
+			if heldRet == nil {
+				rec.Log("MtOp", "a", "writeEnd", "ret", "ok", "wait", false, "probe", "none")
+				continue
+			}
+			time.Sleep(2 * time.Millisecond) // the selections issued meanwhile have reached transportIDLoop's side of the pipeline
+			close(heldRelease)
+			ret := "timeout"
+			select {
+			case ret = <-heldRet:
+			case <-time.After(opTimeout):
+			}
+			heldRet, heldRelease = nil, nil
+			pr := "none"
+			if wait {
+				// observe the current member until it is the last member selected meanwhile (or for the observation window)
+				limit := unknownWindow
+				if heldSel != "" {
+					limit = seenTimeout
+				}
+				deadline := time.Now().Add(limit)
+				for {
+					pr = probe()
+					if pr == "panic" || (heldSel != "" && pr == heldSel) || !time.Now().Before(deadline) {
+						break
+					}
+					time.Sleep(probeEvery)
+				}
+				if heldSel != "" && pr == heldSel {
+					// the queue behind it (ids that must be ignored) is drained within the observation window
+					time.Sleep(unknownWindow)
+					pr = probe()
+				}
+			}
+			rec.Log("MtOp", "a", "writeEnd", "ret", ret, "wait", wait, "probe", pr)
 		case "memberRead":
 			m, ok := members[st.Src]
 			if !ok || st.N < 1 || st.N > 20 {
